@@ -342,6 +342,7 @@ impl E {
             }
             E::Switch(_) | E::Match(..) | E::While(..) | E::Until(..) | E::Loop(_) | E::For(..) | E::Try(..) => true,
             E::Func(f) => !(f.inline && blk_is_inline(&f.body)),
+            E::Map(entries) => entries.iter().any(|(_, v)| v.as_ref().map(|v| v.is_blocky()).unwrap_or(false)),
             E::Assign(_, v) | E::OpAssign(_, _, v) => v.is_blocky(),
             E::Return(Some(v)) | E::Export(v) => v.is_blocky(),
             E::Raw(t, _) => t.contains('\n'),
@@ -517,6 +518,21 @@ impl Renderer {
                 }
                 trim_nl(o)
             }
+            E::Map(entries) if e.is_blocky() => {
+                // map block: only valid as an assignment right-hand side / return value
+                let mut o = String::new();
+                for (k, v) in entries {
+                    o.push('\n');
+                    o.push_str(&self.pad(level + 1));
+                    o.push_str(&self.map_key(k));
+                    o.push_str(": ");
+                    match v {
+                        Some(v) => o.push_str(&self.stmt(v, level + 1)),
+                        None => {}
+                    }
+                }
+                o
+            }
             E::Func(f) if e.is_blocky() => {
                 let mut o = self.func_head(f, level);
                 o.push('\n');
@@ -524,7 +540,11 @@ impl Renderer {
                 trim_nl(o)
             }
             E::Assign(t, v) if v.is_blocky() => {
-                format!("{} = {}", self.tgt(t, level), self.stmt(v, level))
+                if matches!(&**v, E::Map(_)) {
+                    format!("{} ={}", self.tgt(t, level), self.stmt(v, level))
+                } else {
+                    format!("{} = {}", self.tgt(t, level), self.stmt(v, level))
+                }
             }
             E::OpAssign(op, t, v) if v.is_blocky() => {
                 format!("{} {}= {}", self.tgt(t, level), op.text(), self.stmt(v, level))
